@@ -26,7 +26,7 @@ RULE = ("cells = kernel (every CPU class of gpytorch.kernels incl. every nu / q 
         "the four derivative kernels; sum_interaction_terms) x input dim d {1,2,3} x (n1,n2) {(1,1),(2,3),(3,2),(4,4) x2 = x1,(3,3) x2 = None} x "
         "ARD on/off (where the constructor supports it) x kernel batch {(),(2,)} x 2 parameter valuations (public setters) x mode {full, diag; diag "
         "only where x1 == x2, as documented} x path {fast, autograd: inputs require grad; RBF/Matern also no_grad and trace_mode} x geometry {generic, "
-        "duplicated rows, rows 1e-9 apart, far apart}; quick = d {1,2}, first valuation, geometries {generic, duplicated}; "
+        "duplicated rows, rows 1e-9 apart, far apart}; quick = d {1,3}, first valuation, geometries {generic, duplicated}; "
         "distinct/non-trivial = distinct cell whose kernel call returned and was compared entry by entry")
 ASSUMPTIONS = [
     "reference parameter values are read from the kernel's public properties (lengthscale, period_length, alpha, ...) after they were set "
@@ -99,7 +99,7 @@ def spec_name(spec):
 
 def cells(tier, seed):
     quick = tier == "quick"
-    ds = [1, 2] if quick else [1, 2, 3]
+    ds = [1, 3] if quick else [1, 2, 3]  # d = 3 keeps the n == d coincidence (3 rows, 3 dims) and both values of floor(d/2) in the quick tier
     vals = [0] if quick else [0, 1]
     geoms = GEOMS[:2] if quick else GEOMS
     out = []
@@ -437,7 +437,7 @@ def run_cell(cell, seed):
         evaluated = True
         ok, msg = util.close(got, want, tol, tol)
         if not ok:
-            fails.add("value", f"kernel != documented covariance function: err={msg}{characterise(cell, name, got, want, tol)}",
+            fails.add("value", f"kernel != documented covariance function: err={msg}{characterise(cell, name, got, want, tol, k, ctx, x1, x2)}",
                       f"{name} d={d} {feats['shape']} got={_fmt(got)} want={_fmt(want)}")
     if "pp" in name:
         notes["pp_inside_support"] = int((want > 0).sum())
@@ -452,14 +452,29 @@ def _fmt(t):
     return str([round(float(v), 6) for v in t.reshape(-1)[:8]])
 
 
-def characterise(cell, name, got, want, tol):
+def characterise(cell, name, got, want, tol, k, ctx, x1, x2):
     """say what a wrong value equals, where a simple alternative explains it"""
     if tuple(got.shape) != tuple(want.shape):
         return ""
-    if got.dim() >= 2 and got.shape[-1] == got.shape[-2] and util.close(got, want.mT, tol, tol)[0]:
-        return "; equals the TRANSPOSE of the reference"
     if torch.isnan(got).any():
         return "; result contains NaN"
+    bs = tuple(ctx.bs)
+    try:
+        if name == "pp2":  # the r^2 coefficient with j + 4j + 3 in place of j^2 + 4j + 3
+            alt = reference(cell, lambda b: R.piecewise_polynomial(_vec(k.lengthscale, b), 2, q2_coef=lambda j: (j + 4 * j + 3) / 3.0), bs, x1, x2, 0)
+            if util.close(got, alt, tol, tol)[0]:
+                return "; equals the formula with r^2 coefficient (j + 4j + 3)/3 instead of (j^2 + 4j + 3)/3"
+        if name == "hamming" and len(bs) and cell["mode"] == "full" and got.shape[-2] == bs[0]:
+            # alpha / beta of shape (batch, 1) broadcast against (batch, n1, n2): row i is evaluated with the hyperparameters of batch element i
+            xx2 = x1 if x2 is None else x2
+            alt = torch.stack([torch.stack([R.pairwise(R.hamming_imq(_vec(k.alpha, (i,))[0], _vec(k.beta, (i,))[0], VOCAB), x1[b][i:i + 1], xx2[b])[0]
+                                            for i in range(x1.shape[-2])]) for b in range(bs[0])])
+            if util.close(got, alt, tol, tol)[0]:
+                return "; equals the formula with row i using alpha/beta of BATCH ELEMENT i (hyperparameters aligned with the row dimension)"
+    except Exception:  # characterisation is best effort
+        pass
+    if got.dim() >= 2 and got.shape[-1] == got.shape[-2] and util.close(got, want.mT, tol, tol)[0]:
+        return "; equals the TRANSPOSE of the reference"
     return ""
 
 
